@@ -414,6 +414,8 @@ class ConfigLoader(BaseLoader):
 
     def loadResource(self, resource):
         sm = self.createSchemaMatcher()
+        # start clean even if an earlier load on this loader was interrupted
+        self._including = []
         self._parse_resource(sm, resource)
         result = sm.finish(), CompositeHandler(sm.handlers, self.schema)
         return result
